@@ -28,9 +28,7 @@ func Bubble(c *Ctx, t *testing.T, body func(s *Sched)) (leak string) {
 				if r := recover(); r != nil {
 					bodyPanic = r
 					bodyStack = string(debug.Stack())
-					if c.Sched != nil {
-						c.Sched.free.Store(true)
-					}
+					gFree.Store(true)
 				}
 			}()
 			s := NewSched(c)
@@ -38,6 +36,7 @@ func Bubble(c *Ctx, t *testing.T, body func(s *Sched)) (leak string) {
 			body(s)
 		})
 	})
+	gFree.Store(true)
 	Uninstall()
 	if bodyPanic != nil {
 		panic(fmt.Sprintf("%v\n%s", bodyPanic, bodyStack))
